@@ -167,7 +167,9 @@ def _c08_adversarial(rng, n) -> List[Dict[str, Any]]:
         for i, nd in enumerate(arch["nodes"], start=1):
             if nd["op"] in ("conv", "lin") and not nd["excl"]:
                 alpha[str(i)] = [val() for _ in range(sh[i]["ch"])]
-                if dim == 1 and nd["op"] == "conv" and nd["s"] == 1:
+                # rf / dilation masks only where the PIT README allows them: padding='same' or an explicit causal pad
+                # (an un-padded convolution changes its output length when taps are pruned: documented as unsupported)
+                if dim == 1 and nd["op"] == "conv" and nd["s"] == 1 and not nd.get("valid"):
                     tmraw[str(i)] = {"beta": [val() for _ in range(nd["k"])], "gamma": [val() for _ in range(glen(nd["k"]))]}
         scs.append({"arch": arch, "fold": rng.random() < 0.3, "seed": rng.randrange(10 ** 6), "alpha": alpha, "tmraw": tmraw,
                     "props": _props("C08"), "src": "adversarial-" + mode})
@@ -351,7 +353,8 @@ def run_family(pid: str, tier: str, seed: int, replay=None) -> int:
             alpha = {str(i): [0.0] * sh[i]["ch"] for i, nd in enumerate(arch["nodes"], start=1)
                      if nd["op"] in ("conv", "lin") and not nd["excl"]}
             tmraw = {str(i): {"beta": [0.0] * nd["k"], "gamma": [0.0] * glen(nd["k"])}
-                     for i, nd in enumerate(arch["nodes"], start=1) if nd["op"] == "conv" and arch["dim"] == 1 and not nd["excl"]}
+                     for i, nd in enumerate(arch["nodes"], start=1)
+                     if nd["op"] == "conv" and arch["dim"] == 1 and not nd["excl"] and not nd.get("valid")}
             scs.append({"arch": arch, "fold": False, "seed": 1, "alpha": alpha, "tmraw": tmraw, "props": _props(pid),
                         "src": "all-min"})
             if quick and len(seen) >= 250:
